@@ -111,13 +111,14 @@ def label(r: Dict[str, Any]) -> str:
 
 # ---------------------------------------------------------------------------------- bounds
 def scalars(dtype: str) -> Dict[str, Any]:
-    """lo < lo2 <= hi2 < hi plus the extreme pair, all exactly representable in `dtype`."""
+    """lo < lo2 <= hi2 < hi plus the extreme pair, all exactly representable in `dtype` (the integer
+    range is kept at 3 values so that the converted Box of a (2,3) spec has 3**6 elements)."""
     dt = np.dtype(dtype)
     if dt.kind == "b":
         return dict(lo=False, hi=True, hi2=False, lo2=True, ext=(False, True))
     if dt.kind in "iu":
         info = np.iinfo(dt)
-        return dict(lo=1, hi=4, hi2=3, lo2=2, ext=(int(info.min), int(info.max)))
+        return dict(lo=1, hi=3, hi2=2, lo2=2, ext=(int(info.min), int(info.max)))
     return dict(lo=-1.5, hi=2.5, hi2=2.0, lo2=-1.0, ext=(0.0, float("inf")))
 
 
